@@ -192,3 +192,20 @@ GEN_ITEMS = {
     "hijriDim": ["C17"],
     "HIJRI_EPOCH": ["C17"],
 }
+
+# translator stage -> the GEN_ITEMS keys whose model text that stage writes (one Lean file per stage).
+# When a stage does not recognise its source the whole file keeps the pinned tree's text.
+STAGE_ITEMS = {
+    "gen_tables": ["L0", "L1", "L2", "L3", "L4", "L5", "B0", "B1", "R0", "R1", "R2", "R3", "R4", "PE", "SIN_COEFFICIENT"],
+    "gen_consts": ["RA_WRAP", "raWrapNext", "raWrapPrev", "SIDEREAL_RATE", "GMST", "J2000", "CENTER_OF_SUN_ANGLE",
+                   "DEGREES_TO_10_BASE", "ASR_RATIO", "KAABA_LATITUDE", "KAABA_LONGITUDE", "DEF_IMSAAK_ANGLE",
+                   "DEFAULT_WEATHER", "range", "serde", "HIJRI_EPOCH"],
+    "gen_lists": ["intFlagRead", "isAlways", "canAdj", "hasInv", "dispatch", "intExcluded", "Policy", "goodDayBound",
+                  "roundedPrayers", "methodTable"],
+    "gen_hijri": ["hijriYear", "hijriLeap", "hijriMonth", "hijriDim"],
+    "gen_range": ["numDays", "partition"],
+    "gen_protocol": ["protocol"],
+}
+# stages whose content the correspondence cannot determine by sampling (thread schedules): a shape the
+# translator does not recognise is a broken obligation at once
+STRICT_STAGES = {"gen_protocol"}
